@@ -70,30 +70,7 @@ def check_case(ctx, case):
              stream='st-table', sample=dict(n=len(vals), steps=vals.shape[1], x_lags=nx, t_lags=nt,
                                             estimator=case['estimator'], nan_cells=int(np.sum(np.isnan(exp)))))
     # brute-force oracle of the statement (independent of the model)
-    n, m = vals.shape
-    lox = np.concatenate(([0.0], xb[:-1]))
-    lot = np.concatenate(([0.0], tb[:-1]))
-    from skgstat import estimators
-    est = getattr(estimators, case['estimator'])
-    cells = [[[] for _ in range(nt)] for _ in range(nx)]
-    k = 0
-    for a in range(n):
-        for b in range(a + 1, n):
-            dx = xd[k]
-            k += 1
-            l = 0
-            for s in range(m):
-                for t in range(s + 1, m):
-                    dt = td[l]
-                    l += 1
-                    for i in range(nx):
-                        if lox[i] < dx <= xb[i]:
-                            for j in range(nt):
-                                if lot[j] < dt <= tb[j]:
-                                    cells[i][j].append(abs(vals[a, s] - vals[b, t]))
-    with quiet():
-        want = [float(est(np.array(cells[i][j]))) if len(cells[i][j]) else float('nan')
-                for i in range(nx) for j in range(nt)]
+    want = brute_table(vals, xd, td, xb, tb, case['estimator'])
     if not all_close(exp.tolist(), want, rel=1e-9):
         ctx.violation('table', 'experimental %r, estimator over exactly each cell\'s pairs (space-major) %r' % (
             exp.tolist(), want), case)
@@ -109,7 +86,12 @@ def check_case(ctx, case):
                 xg.tolist(), tg.tolist(), mxg, mtg), case)
         elif not all_close(m_, exp.tolist(), rel=1e-9):
             ctx.violation('table-model', 'experimental %r, model %r' % (exp.tolist(), [None if v is None else float(v) for v in m_]), case)
-    big = case['estimator'] == 'genton' and max(len(c) for row in cells for c in row) > 45
+    # cell sizes (pairs per cell) bound the exact Genton model
+    lox_ = np.concatenate(([0.0], xb[:-1]))
+    lot_ = np.concatenate(([0.0], tb[:-1]))
+    nxc = [int(np.sum((xd > a) & (xd <= b))) for a, b in zip(lox_, xb)]
+    ntc = [int(np.sum((td > a) & (td <= b))) for a, b in zip(lot_, tb)]
+    big = case['estimator'] == 'genton' and max(nxc, default=0) * max(ntc, default=0) > 45
     if not big:
         ctx.lean.ask(['c14', 'table', case['estimator'], str(vals.shape[1]), frs(vals.flatten()), frs(xb), frs(xd),
                       frs(tb), frs(td)], cb)
@@ -127,6 +109,78 @@ def check_case(ctx, case):
                 ctx.violation('marginal-time', 'get_marginal(time, %d) = %r is not row %d of the table' % (
                     lag, mt.tolist(), lag), case)
                 return
+
+
+def brute_table(vals, xd, td, xb, tb, estname):
+    """the statement evaluated directly: estimator over exactly each cell's |v[a,s] - v[b,t]|, space-major"""
+    nx, nt = len(xb), len(tb)
+    n, m = vals.shape
+    lox = np.concatenate(([0.0], xb[:-1]))
+    lot = np.concatenate(([0.0], tb[:-1]))
+    from skgstat import estimators
+    est = getattr(estimators, estname)
+    cells = [[[] for _ in range(nt)] for _ in range(nx)]
+    k = 0
+    for a in range(n):
+        for b in range(a + 1, n):
+            dx = xd[k]
+            k += 1
+            l = 0
+            for s in range(m):
+                for t in range(s + 1, m):
+                    dt = td[l]
+                    l += 1
+                    for i in range(nx):
+                        if lox[i] < dx <= xb[i]:
+                            for j in range(nt):
+                                if lot[j] < dt <= tb[j]:
+                                    cells[i][j].append(abs(vals[a, s] - vals[b, t]))
+    with quiet():
+        return [float(est(np.array(cells[i][j]))) if len(cells[i][j]) else float('nan')
+                for i in range(nx) for j in range(nt)]
+
+
+@guarded
+def check_rebin(ctx, case):
+    """lag edges assigned on an instance that has already computed its table (user edges / another number of classes
+    on either axis): the table is again the estimator over exactly each cell's pairs, for the edges it reports now"""
+    vals = np.array(case['values'], float)
+    try:
+        V = build(case)
+        with quiet():
+            _ = V.experimental
+            xb0, tb0 = np.asarray(V.xbins, float), np.asarray(V.tbins, float)
+            op = case.get('rebin', 'tbins-edges')
+            if op == 'tbins-edges':
+                V.tbins = [float(x) for x in tb0[:-1]] if len(tb0) > 1 else [float(tb0[0]) * 0.5]
+            elif op == 'xbins-edges':
+                V.xbins = (xb0 * 0.8).tolist()
+            elif op == 'tbins-int':
+                V.tbins = max(1, len(tb0) - 1)
+            else:
+                V.xbins = len(xb0) + 1
+            xb, tb = np.asarray(V.xbins, float), np.asarray(V.tbins, float)
+            exp = np.asarray(V.experimental, float)
+            xd, td = np.asarray(V.xdistance, float), np.asarray(V.tdistance, float)
+            marg = np.asarray(V.get_marginal('space', 0), float)
+    except (ValueError, RuntimeError, AttributeError) as e:
+        ctx.reject('rebin:' + type(e).__name__)
+        return
+    ctx.case(signature=('rebin', case.get('rebin'), len(xb), len(tb), case['estimator']), stream='st-rebin',
+             sample=dict(op=case.get('rebin'), x_lags=len(xb), t_lags=len(tb)))
+    ctx.count('rebin:' + str(case.get('rebin')))
+    if len(exp) != len(xb) * len(tb):
+        ctx.violation('table-after-rebinning', '%d entries for %d x %d classes after %s' % (
+            len(exp), len(xb), len(tb), case.get('rebin')), dict(case, rebin_case=True))
+        return
+    want = brute_table(vals, xd, td, xb, tb, case['estimator'])
+    if not all_close(exp.tolist(), want, rel=1e-9):
+        ctx.violation('table-after-rebinning', 'after %s on an instance that had computed its table: experimental %r, '
+                      'estimator over exactly each cell\'s pairs for the reported edges %r' % (
+                          case.get('rebin'), exp.tolist(), want), dict(case, rebin_case=True))
+    elif not all_close(marg.tolist(), [want[i * len(tb)] for i in range(len(xb))], rel=1e-9):
+        ctx.violation('table-after-rebinning', 'after %s: get_marginal(space, 0) is not column 0 of the table' %
+                      case.get('rebin'), dict(case, rebin_case=True))
 
 
 @guarded
@@ -164,12 +218,16 @@ def run(ctx):
         check_case(ctx, case)
         if k % 3 == 0:
             check_widen(ctx, case)
+        if k % 3 == 1:
+            check_rebin(ctx, dict(case, rebin=['tbins-edges', 'xbins-edges', 'tbins-int', 'xbins-int'][(k // 3) % 4]))
     ctx.lean.flush()
 
 
 def replay(ctx, body):
     if body['case'].get('widen'):
         check_widen(ctx, body['case'])
+    elif body['case'].get('rebin_case'):
+        check_rebin(ctx, body['case'])
     else:
         check_case(ctx, body['case'])
     ctx.lean.flush()
